@@ -35,15 +35,28 @@ fn find_char(needle: u8, haystack: &[u8]) -> (r: Option<usize>)
     }
 { unimplemented!() }
 
-pub open spec fn is_sep(b: u8) -> bool { b == 47u8 || b == 94u8 || b == 42u8 }   // '/', '^', '*'
-// R9: SEPARATOR.find(pattern) for the Lazy<Regex> "[/^*]" — the first of these three characters
+// the characters that end the host of a `||` rule: '/', '^', '*', and the start of a port, query or fragment ':', '?', '#'
+// ("the remainder matching directly after that host": in `||example.com:8080^` the host is example.com - fix 9f00384)
+pub open spec fn is_sep(b: u8) -> bool { b == 47u8 || b == 94u8 || b == 42u8 || b == 58u8 || b == 63u8 || b == 35u8 }
+pub open spec fn is_plain_sep(b: u8) -> bool { b == 47u8 || b == 58u8 || b == 63u8 || b == 35u8 }
+// R9: SEPARATOR.find_at(pattern, start) for the Lazy<Regex> "[/^*:?#]" — the first of these characters at or after `start`
 pub struct VfMatch { pub at: usize }
 impl VfMatch { pub fn start(&self) -> (r: usize) ensures r == self.at { self.at } }
 #[verifier::external_body]
-fn vf_first_separator(pattern: &str) -> (r: Option<VfMatch>)
+fn vf_first_separator_at(pattern: &str, start: usize) -> (r: Option<VfMatch>)
+    requires start <= pattern.spec_bytes().len(), vstd::utf8::is_char_boundary(pattern.spec_bytes(), start as int),
     ensures match r {
-        Some(m) => m.at < pattern.spec_bytes().len() && is_sep(pattern.spec_bytes()[m.at as int]) && forall|j: int| 0 <= j < m.at ==> !is_sep(pattern.spec_bytes()[j]),
-        None => forall|j: int| 0 <= j < pattern.spec_bytes().len() ==> !is_sep(pattern.spec_bytes()[j]),
+        Some(m) => start <= m.at < pattern.spec_bytes().len() && is_sep(pattern.spec_bytes()[m.at as int]) && forall|j: int| start <= j < m.at ==> !is_sep(pattern.spec_bytes()[j]),
+        None => forall|j: int| start <= j < pattern.spec_bytes().len() ==> !is_sep(pattern.spec_bytes()[j]),
+    }
+{ unimplemented!() }
+// T (core::str): `pattern[start..].find(['/', ':', '?', '#']).map(|i| i + start)` — the slice needs `start` on a character boundary
+#[verifier::external_body]
+fn vf_first_plain_separator_at(pattern: &str, start: usize) -> (r: Option<usize>)
+    requires start <= pattern.spec_bytes().len(), vstd::utf8::is_char_boundary(pattern.spec_bytes(), start as int),
+    ensures match r {
+        Some(i) => start <= i < pattern.spec_bytes().len() && is_plain_sep(pattern.spec_bytes()[i as int]) && forall|j: int| start <= j < i ==> !is_plain_sep(pattern.spec_bytes()[j]),
+        None => forall|j: int| start <= j < pattern.spec_bytes().len() ==> !is_plain_sep(pattern.spec_bytes()[j]),
     }
 { unimplemented!() }
 
@@ -63,11 +76,20 @@ pub open spec fn has_regex_char(b: Seq<u8>) -> bool { exists|j: int| 0 <= j < b.
 //@ ENDSPEC
 //@END
 
-// where the hostname of a `||` rule ends: at the first '/', '^' or '*' of a wildcard pattern, at the first '/' of a plain one
+// a bracketed IPv6 literal in front is host text up to its ']' (its colons do not end the host): the search for the end starts at `k`
+pub open spec fn literal_skip(b: Seq<u8>, k: int) -> bool {
+    if b.len() > 0 && b[0] == 91u8 { (0 <= k < b.len() && b[k] == 93u8 && forall|j: int| 0 <= j < k ==> b[j] != 93u8) || (k == 0 && forall|j: int| 0 <= j < b.len() ==> b[j] != 93u8) }
+    else { k == 0 }
+}
+pub open spec fn no_sep_after_literal(b: Seq<u8>) -> bool {
+    exists|k: int| #[trigger] literal_skip(b, k) && 0 < k && forall|j: int| k <= j < b.len() ==> !is_sep(b[j])
+}
+// where the hostname of a `||` rule ends: at the first character that cannot belong to a host - '/', '^', '*' or the start of a port,
+// query or fragment - ('^' and '*' only occur in a wildcard pattern)
 pub open spec fn host_cut(b: Seq<u8>, is_regex: bool, c: int) -> bool {
-    0 <= c <= b.len()
-    && (if is_regex { (forall|j: int| 0 <= j < c ==> !is_sep(b[j])) && (c < b.len() ==> is_sep(b[c])) }
-        else { (forall|j: int| 0 <= j < c ==> b[j] != 47u8) && (c < b.len() ==> b[c] == 47u8) })
+    exists|k: int| #[trigger] literal_skip(b, k) && k <= c <= b.len()
+    && (if is_regex { (forall|j: int| k <= j < c ==> !is_sep(b[j])) && (c < b.len() ==> is_sep(b[c])) }
+        else { (forall|j: int| k <= j < c ==> !is_plain_sep(b[j])) && (c < b.len() ==> is_plain_sep(b[c])) })
 }
 
 // where the pattern body starts once the host part of a `||` rule is taken off: directly at the cut (so a '/' or '^' that ends the host
@@ -108,8 +130,11 @@ fn vf_pattern_block_a(pattern: &str, parsed: &ParsedView, is_regex: bool, mask0:
     ensures
         // only a `||` rule has a hostname part; it is the pattern text up to the cut
         !(parsed.pattern.left_anchor is Some && parsed.pattern.left_anchor->Some_0 is DoublePipe) ==> r.1 is None, // OBL C02.parse.hostname_only_double_pipe
+        // (the one spelling without a host part: a wildcard pattern whose only '*' / '^' sit inside a leading `[...]` - `||[^]` - which
+        // keeps its whole text as the body and matches nothing: C10.wf.no_hostname)
         (parsed.pattern.left_anchor is Some && parsed.pattern.left_anchor->Some_0 is DoublePipe) ==>
-            r.1 is Some && host_cut(pattern.spec_bytes(), is_regex, r.4@) && sbytes(r.1->Some_0) == pattern.spec_bytes().subrange(0, r.4@), // OBL C02.parse.hostname_cut
+            (r.1 is Some && host_cut(pattern.spec_bytes(), is_regex, r.4@) && sbytes(r.1->Some_0) == pattern.spec_bytes().subrange(0, r.4@))
+            || (r.1 is None && is_regex && r.4@ == 0 && no_sep_after_literal(pattern.spec_bytes())), // OBL C02.parse.hostname_cut
         // where the pattern body lies
         (r.2 as int, r.3 as int) == trimmed(pattern.spec_bytes(), body_after_host(pattern.spec_bytes(),
             parsed.pattern.left_anchor is Some && parsed.pattern.left_anchor->Some_0 is DoublePipe, is_regex, r.4@)), // OBL C02.parse.body.range
@@ -134,26 +159,51 @@ fn vf_pattern_block_a(pattern: &str, parsed: &ParsedView, is_regex: bool, mask0:
 //@ AFTER
     hostname = Some(String::from(&pattern[..first_separator_start]));
 //@ AT
-    proof { cut = first_separator_start as int; }
+    proof { cut = first_separator_start as int; assert(literal_skip(pattern.spec_bytes(), after_ipv6_literal as int)); }
 //@ ENDAFTER
 //@ AFTER
     hostname = Some(String::from(&pattern[..i]));
 //@ AT
-    proof { cut = i as int; }
+    proof { cut = i as int; assert(literal_skip(pattern.spec_bytes(), after_ipv6_literal as int)); }
 //@ ENDAFTER
 //@ AFTER
     hostname = Some(String::from(pattern));
 //@ AT
-    proof { cut = pattern.spec_bytes().len() as int; assert(pattern.spec_bytes().subrange(0, cut) =~= pattern.spec_bytes()); }
+    proof { cut = pattern.spec_bytes().len() as int; assert(pattern.spec_bytes().subrange(0, cut) =~= pattern.spec_bytes()); assert(literal_skip(pattern.spec_bytes(), after_ipv6_literal as int)); }
 //@ ENDAFTER
+//@ BEFORE
+    if let Some(first_separator) = SEPARATOR.find_at(pattern, after_ipv6_literal) {
+//@ AT
+    proof {
+        let b = pattern.spec_bytes();
+        let k = after_ipv6_literal as int;
+        assert(literal_skip(b, k));
+        // when nothing is found from k on, k lies behind a leading `[...]`: a wildcard pattern has a '*' or '^' somewhere
+        if forall|j: int| k <= j < b.len() ==> !is_sep(b[j]) {
+            if k == 0 {
+                let j = choose|j: int| 0 <= j < b.len() && (b[j] == 42u8 || b[j] == 94u8);
+                assert(is_sep(b[j]));
+                assert(false);
+            }
+            assert(no_sep_after_literal(b));
+        }
+    }
+//@ ENDBEFORE
 //@ SUBST R9
-    static SEPARATOR: Lazy<Regex> = Lazy::new(|| Regex::new("[/^*]").unwrap());
+    static SEPARATOR: Lazy<Regex> = Lazy::new(|| Regex::new("[/^*:?#]").unwrap());
 //@ WITH
 //@ ENDSUBST
 //@ SUBST R9
-    SEPARATOR.find(pattern)
+    SEPARATOR.find_at(pattern, after_ipv6_literal)
 //@ WITH
-    vf_first_separator(pattern)
+    vf_first_separator_at(pattern, after_ipv6_literal)
+//@ ENDSUBST
+//@ SUBST R6
+    pattern[after_ipv6_literal..]
+                    .find(['/', ':', '?', '#'])
+                    .map(|i| i + after_ipv6_literal)
+//@ WITH
+    vf_first_plain_separator_at(pattern, after_ipv6_literal)
 //@ ENDSUBST
 //@ SUBST R6*
     String::from(
